@@ -562,6 +562,9 @@ def sites_after(L1, L0, R, k, s, N):
                forall(lambda i: L1[i] == L0[i], 0, length(L0)),
                forall(lambda i: exists(lambda q: R[q] - 1 == L1[i], 0, k), length(L0), length(L1)),
                forall(lambda q: implies(site_ok(R[q] - 1, s, N), member(R[q] - 1, L1, length(L1))), 0, k),
+               # first-set order: an entry that stands before another one was requested before the other one's first request
+               forall(lambda j: forall(lambda i: exists(lambda q: And(R[q] - 1 == L1[i], forall(lambda r: Not(R[r] - 1 == L1[j]), 0, q + 1)), 0, k),
+                                       length(L0), j), length(L0), length(L1)),
                phos_inv(L1, s, N))
 
 
@@ -654,3 +657,28 @@ def annotation_ok(text, region):
 
 
 SPEC.update(dict(annotation_ok=annotation_ok))
+
+
+def bisect_step(mn0, mx0, bc0, pc0, mn1, mx1, mid1, pc1):
+    """one iteration of the pI search that does not return: after 19 halvings without success the bracket is first widened by
+    one pH unit on the side the last charge points to; then the bracket is halved and the half kept is the one the sign of the
+    charge at the mid-point asks for"""
+    widen = bc0 + 1 == 20
+    wmn = ite(And(widen, Not(pc0 > 0)), lambda: mn0 - 1, lambda: mn0)
+    wmx = ite(And(widen, pc0 > 0), lambda: mx0 + 1, lambda: mx0)
+    return And(mid1 == (wmn + wmx) / 2,
+               Or(And(mn1 == mid1, mx1 == wmx, pc1 > Fraction(2, 100)), And(mx1 == mid1, mn1 == wmn, pc1 < -Fraction(2, 100))))
+
+
+SPEC.update(dict(bisect_step=bisect_step))
+
+
+def sty_list_ok(L, s, k):
+    """L lists, 1-based and strictly increasing, exactly the positions below k that hold S, T or Y"""
+    L = as_seq(L)
+    return And(forall(lambda i: And(1 <= L[i], L[i] <= k, is_sty(s[L[i] - 1])), 0, length(L)),
+               forall(lambda i: forall(lambda j: L[j] < L[i], 0, i), 0, length(L)),
+               forall(lambda j: implies(is_sty(s[j]), member(j + 1, L, length(L))), 0, k))
+
+
+SPEC.update(dict(sty_list_ok=sty_list_ok))
